@@ -346,3 +346,18 @@ Proof.
     pose proof (expected_row_ok (c_keys c) kv Hkv) as H.
     rewrite forallb_forall in *. intros f Hf. specialize (H f Hf). unfold fld_ok in H. now apply andb_true_iff in H as [H _].
 Qed.
+
+(* ---------- review item: with the library reader's blank-line skipping ---------- *)
+Lemma filter_all {A} (f : A -> bool) l : forallb f l = true -> filter f l = l.
+Proof. induction l as [|x l IH]; cbn; [reflexivity|]. intros H. apply andb_true_iff in H as [H1 H2]. now rewrite H1, IH. Qed.
+
+Lemma csv_roundtrip_skip_blank kv0 extra0 rest :
+  extra0 <> [] -> dumps_ok [] ((kv0, extra0) :: rest) ->
+  let c := csv_run csv0 ((kv0, extra0) :: rest) in
+  parse_csv_skip_blank (c_file c) = filter (fun r => negb (is_blank_row r)) (expected_table (c_keys c) ((kv0, extra0) :: rest)) /\
+  (no_blank_rows (expected_table (c_keys c) ((kv0, extra0) :: rest)) = true ->
+   parse_csv_skip_blank (c_file c) = expected_table (c_keys c) ((kv0, extra0) :: rest)).
+Proof.
+  intros Hne Hok. cbn zeta. unfold parse_csv_skip_blank. rewrite (csv_roundtrip kv0 extra0 rest Hne Hok).
+  split; [reflexivity|]. intros H. now apply filter_all.
+Qed.
